@@ -329,13 +329,11 @@ theorem idx_last (s : Bytes) (hs : s ≠ []) :
 /-- `s[len(s)-1] == c` on a non-empty string -/
 theorem last_byte_test (s : Bytes) (hs : s ≠ []) (c : UInt8) :
     decide ((((s.getLast hs).toNat : Nat) : Int) = ((c.toNat : Nat) : Int)) = (s.getLast? == some c) := by
-  rw [List.getLast?_eq_some_getLast hs, byte_toInt_inj]
-  rw [Bool.eq_iff_iff]; simp
+  rw [List.getLast?_eq_some_getLast hs, Bool.eq_iff_iff, decide_eq_true_eq, byte_toInt_inj]; simp
 
 theorem first_byte_test (s : Bytes) (hs : s ≠ []) (c : UInt8) :
     decide ((((s.head hs).toNat : Nat) : Int) = ((c.toNat : Nat) : Int)) = (s.head? == some c) := by
-  rw [List.head?_eq_some_head hs, byte_toInt_inj]
-  rw [Bool.eq_iff_iff]; simp
+  rw [List.head?_eq_some_head hs, Bool.eq_iff_iff, decide_eq_true_eq, byte_toInt_inj]; simp
 
 /-! ### strings.Contains with a longer needle: an occurrence at some offset -/
 
@@ -351,7 +349,7 @@ theorem indexAux_nonneg_iff (sub : Bytes) (hsub : sub ≠ []) : ∀ (s : Bytes) 
     · simp only [hp, if_true]
       constructor
       · intro _; exact ⟨0, by simp, by simpa using hp⟩
-      · intro _; omega
+      · intro _; exact Int.natCast_nonneg k
     · simp only [hp, Bool.false_eq_true, if_false, indexAux_nonneg_iff sub hsub xs (k + 1)]
       constructor
       · rintro ⟨j, hj, h⟩; exact ⟨j + 1, by simp; omega, by simpa using h⟩
